@@ -6,7 +6,7 @@
 (*   kinds "A","B"      graph nodes (nnx.Module subclasses): identity      *)
 (*   kinds "L","D","T"  pytree containers (list / dict / tuple): values    *)
 (*   kinds "P","Q"      Variables (nnx.Param / a custom Variable type)     *)
-(* Every container has two slots (keys a,b / 0,1 / x,y in this order);     *)
+(* Every container has two slots (keys a,b / 0,1 / x,y / 2,10 in this order);*)
 (* a slot holds 0 (absent), i > 0 (reference to object i), -1 (a static    *)
 (* Python value) or -2 (a raw array attribute).                            *)
 (*                                                                         *)
@@ -30,15 +30,16 @@ VARIABLES heap, phase, nedits, nops, h
 
 vars == <<heap, phase, nedits, nops, h>>
 
-Containers == {"A", "B", "L", "D", "T", "NT"}    \* NT: a namedtuple (generic registered pytree) with fields (w, b): declaration order is not key order
+Containers == {"A", "B", "L", "D", "DI", "T", "NT"}    \* DI: a dict with the int keys 2 and 10 (numeric order is not string order); NT: a namedtuple (generic registered pytree) with fields (w, b): declaration order is not key order
 GraphKinds == {"A", "B"}
 VarKinds == {"P", "Q"}
 Obj(k, s1, s2, val, meta) == [k |-> k, s |-> <<s1, s2>>, val |-> val, meta |-> meta]
 IsVar(o) == o.k \in VarKinds
 IsGraph(o) == o.k \in GraphKinds
-IsTree(o) == o.k \in {"L", "D", "T", "NT"}
+IsTree(o) == o.k \in {"L", "D", "DI", "T", "NT"}
 KeyName(k, slot) == CASE k \in GraphKinds -> IF slot = 1 THEN "a" ELSE "b"
                       [] k = "D" -> IF slot = 1 THEN "x" ELSE "y"
+                      [] k = "DI" -> IF slot = 1 THEN "2" ELSE "10"
                       [] k = "NT" -> IF slot = 1 THEN "w" ELSE "b"
                       [] OTHER -> IF slot = 1 THEN "0" ELSE "1"
 
@@ -140,7 +141,11 @@ Poppable(H, S_) == \A id \in S_ : \A p \in Parents(H, id) \cap Reachable(H) : Is
 (***************************************************************************)
 Log(e) == h' = IF Hist THEN Append(h, e) ELSE h
 
-Init == /\ heap = <<Obj("A", 0, 0, 0, 0)>> /\ phase = "build" /\ nedits = 0 /\ nops = 0 /\ h = <<>>
+\* initial heap: the empty root, or (cfg: InitHeap <- TiedHeap) a graph with tied weights: root.a and root.b.a are one Param,
+\* root.b.b is a Variable of the other type
+InitHeap == <<Obj("A", 0, 0, 0, 0)>>
+TiedHeap == <<Obj("A", 2, 3, 0, 0), Obj("P", 0, 0, 1, 0), Obj("B", 2, 4, 0, 0), Obj("Q", 0, 0, 2, 1)>>
+Init == /\ heap = InitHeap /\ phase = "build" /\ nedits = 0 /\ nops = 0 /\ h = <<>>
 
 SlotOK(H, p, slot) ==   \* lists / tuples are contiguous
   H[p].k \in {"L", "T"} /\ slot = 2 => H[p].s[1] # 0
